@@ -150,6 +150,10 @@ def check(case, r, out):
                 return
             set_errs = [e for e in r.errors if e.isa == ii and e.gs == gi and e.st == j]
             code = tx['ak5'].get(1) if tx['ak5'] is not None else None
+            if ss['st'].get('reader_error') and code == 'A':
+                out.violate('ack', 'ak5-vs-ground-truth|st-reader-error', 'group %d set %d: the ST line itself draws a reader error (leading blank / '
+                            'trailing separators), yet the set is acknowledged A' % (k + 1, j + 1))
+                return
             if (code == 'A') != (not set_errs):
                 out.violate('ack', 'ak5-vs-errors|%s' % ('accepted-with-errors' if code == 'A' else 'rejected-without-errors'),
                             'group %d set %d acknowledged %r but %d errors were reported inside it: %r' % (
@@ -214,7 +218,8 @@ def check(case, r, out):
             return
     # (3b) every injected element fault is itemised at the position where it was injected (ground truth of the workload)
     txs = [tx for ag in a.sets for tx in ag['tx']]
-    for f in case.get('faults', []):
+    heavy = [k for _, k in case.get('tfaults', []) if k in ('drop_st', 'st01_foreign', 'idonly_seg')]
+    for f in ([] if heavy else case.get('faults', [])):      # (a body emptied or a set no longer located changes what the faults mean)
         if not f.get('ele') or f.get('code') in (None, '*') or f.get('kind') in ('syntax_note',):
             continue
         line = f['line']
@@ -247,7 +252,7 @@ def check(case, r, out):
             return
     # (3c) the converse over the ground truth of the workload: when every defect of the document is a known, position-neutral
     # fault, an itemised segment line names a faulted segment of its set (or its trailer) - no innocent segment is blamed
-    structural = [k for _, k in case.get('tfaults', []) if k in ('junk_gap', 'drop_se', 'drop_ge')]
+    structural = [k for _, k in case.get('tfaults', []) if k in ('junk_gap', 'drop_se', 'drop_ge', 'drop_st', 'st01_foreign', 'idonly_seg')]
     if not structural and all(f.get('line') is not None and f.get('op') != 'delete' for f in case.get('faults', [])):
         faulted = {}
         for f in case.get('faults', []):
@@ -282,6 +287,9 @@ def check(case, r, out):
         if got != want:
             out.violate('ack', 'isa-addressing', 'ack ISA05-08 %r, expected the source\'s receiver/sender swapped %r' % (got, want))
             return
+    elif a.isa is not None and len(set(WL.val(s, 6) for s in isas)) > 1:
+        out.violate('ack', 'isa-addressing|several-senders', 'the file holds interchanges from %d senders %r; the single acknowledgement interchange is '
+                    'addressed to %r only' % (len(set(WL.val(s, 6) for s in isas)), sorted(set(WL.val(s, 6).strip() for s in isas)), (a.isa.get(8) or '').strip()))
     if len(set((WL.val(s, 2), WL.val(s, 3)) for s in gss)) == 1 and a.gs is not None:
         s = gss[0]
         want = [WL.val(s, 3).rstrip(), WL.val(s, 2).rstrip()]
